@@ -157,6 +157,22 @@ def _(vc):
     vc.ensure("reported_structured_decomposable_only_if_products_split_alike", z3.Implies(_flag(vc, sc, "is_structured_decomposable"), _sd_def(b)))
 
 
+for _first in (0, 1):
+    def _h(vc, _first=_first):
+        """a product over a (possibly non-smooth) sum: root = (in(a) + in(b) x in(c)) x in(d), the sum's inputs in either order;
+        decomposability looks at the scope of the sum = the UNION of its inputs' scopes"""
+        b = Build(vc)
+        a, bb, c, d = (vc.int(n, lo=0) for n in ("a", "b", "c", "d"))
+        small, big = b.inp(a), b.prod(b.inp(bb), b.inp(c))
+        s = b.sum(*([small, big] if _first == 0 else [big, small]))
+        root = b.prod(s, b.inp(d))
+        sc = b.circuit(root)
+        vc.ensure("decomposable_def", _flag(vc, sc, "is_decomposable") == b.decomposable())
+        vc.ensure("smooth_def", _flag(vc, sc, "is_smooth") == b.smooth())
+        vc.ensure("scope_is_union_of_all_inputs", scope_arr(sc.fields["scope"]) == b.scope[root])
+    obligation(f"C08.is_decomposable.product_over_nonsmooth_sum.order{_first}", "C08", [f"{SCI}:Circuit.is_decomposable", f"{SCI}:Circuit.__init__"])(_h)
+
+
 def _two_splits(vc, order2=(0, 1)):
     """sum over P1 = (A x B) and P2 = (C x D) where A = in(a0) x in(a1), B = in(b), C = in(c), D = in(d0) x in(d1)"""
     b = Build(vc)
